@@ -6,12 +6,12 @@ id=$1; sfx=${2:-}; W=/var/tmp/ovm-mut-$id$sfx
 cd $W || exit 3
 git checkout -q -- src
 cmake --build bld -j8 >/dev/null 2>&1 || { echo "ORIG BUILD FAILED"; exit 3; }
-g++ -std=c++17 -I$W/src -I$W/bld/src MUT/demo.cc $W/bld/Build/lib/libOpenVolumeMesh.a -o MUT/demo_orig 2>/dev/null || { echo "DEMO COMPILE FAILED"; exit 3; }
+g++ -std=c++17 -I$W/src -I$W/bld/src MUT/demo.cc $W/bld/Build/lib/libOpenVolumeMesh.a -pthread -o MUT/demo_orig 2>/dev/null || { echo "DEMO COMPILE FAILED"; exit 3; }
 (cd MUT && timeout 120 ./demo_orig >/dev/null 2>&1); o=$?
 to=$(ctest --test-dir bld -j1 2>/dev/null | grep "tests passed")
 git apply MUT/patch.diff || { echo "PATCH FAILED"; exit 3; }
 cmake --build bld -j8 >/dev/null 2>&1 || { echo "CHANGED BUILD FAILED"; git checkout -q -- src; exit 3; }
-g++ -std=c++17 -I$W/src -I$W/bld/src MUT/demo.cc $W/bld/Build/lib/libOpenVolumeMesh.a -o MUT/demo_changed 2>/dev/null
+g++ -std=c++17 -I$W/src -I$W/bld/src MUT/demo.cc $W/bld/Build/lib/libOpenVolumeMesh.a -pthread -o MUT/demo_changed 2>/dev/null
 (cd MUT && timeout 120 ./demo_changed >/dev/null 2>&1); c=$?
 tc=$(ctest --test-dir bld -j1 2>/dev/null | grep "tests passed")
 git checkout -q -- src
